@@ -220,6 +220,28 @@ func buildServer(doc *loads.Document, n int, point func(), plans []reqPlan, salt
 	}
 	ctx := middleware.NewContext(doc, u, nil)
 	h := ctx.APIHandler(nil)
+	if auditMode {
+		// an audit / metrics middleware in front of the operation: it binds the request, hands the returned request value down,
+		// and asks for the binding outcome again once the operation has returned — it must be told the same thing
+		h = ctx.APIHandler(func(next http.Handler) http.Handler {
+			return http.HandlerFunc(func(w http.ResponseWriter, r *http.Request) {
+				route, r1, ok := ctx.RouteInfo(r)
+				if !ok {
+					next.ServeHTTP(w, r)
+					return
+				}
+				b1, r2, e1 := ctx.BindAndValidate(r1, route)
+				first := boundDigest(b1, e1)
+				next.ServeHTTP(w, r2)
+				b2, _, e2 := ctx.BindAndValidate(r2, route)
+				if again := boundDigest(b2, e2); again != first {
+					if i := simapi.ReqIndex(r); i >= 0 && i < len(world.Slots) {
+						world.Slots[i].Audit = fmt.Sprintf("bound before the operation: %s; asked again after it: %s", first, again)
+					}
+				}
+			})
+		})
+	}
 	var probes []*http.Request
 	for _, o := range ops {
 		probes = append(probes, httptest.NewRequest(o.method, "/api"+strings.NewReplacer("{id}", "x", "{sub}", "y").Replace(o.tmpl), nil))
@@ -269,6 +291,9 @@ func (p *reqPlan) build() (*http.Request, *countingBody) {
 	}
 	return r, body
 }
+
+// auditMode: this run's handlers (solo and concurrent alike) have the audit middleware in front.
+var auditMode bool
 
 // acceptPool: single ranges, and several ranges whose textual order is not their preference order.
 var acceptPool = []string{"application/json", "text/plain", "*/*", "", "image/png", "text/plain;q=0.5, application/json",
@@ -343,6 +368,9 @@ func ownCheck(p *reqPlan, s *simapi.Obs, status int, respBody string) string {
 		if !strings.HasSuffix(fmt.Sprint(s.AuthzPrinc), "-"+p.tok) && s.AuthzPrinc != "" {
 			bad = append(bad, fmt.Sprintf("principal %v is not derived from own credentials (%s)", s.AuthzPrinc, p.tok))
 		}
+	}
+	if s.Audit != "" {
+		bad = append(bad, "audit middleware: "+s.Audit)
 	}
 	for _, c := range s.Consumers {
 		want := "json"
@@ -609,6 +637,7 @@ func (prop) Run(t *testing.T, tape *kernel.Tape, sc kernel.Scenario) *kernel.Res
 	flowB := tape.Bool(2, "accessor-flow")
 	plans := make([]reqPlan, n)
 	sameRoute := tape.Choose(len(ops), "popular-op")
+	auditMode = !flowB && tape.Bool(3, "audit-middleware-in-front")
 	sharedAccept := tape.Bool(2, "same-accept-header-on-all-requests")
 	nonce := tape.Choose(1000000, "accept-nonce")
 	for i := range plans {
